@@ -341,6 +341,9 @@ func checkC08(c *Ctx) error {
 					named += 2 // a wildcard may match the file once more: a pipe can be read only once
 				}
 			}
+			if len(g.pats) == 1 {
+				named = 1 // one pattern: every file it matches is read once
+			}
 			if j.k%7 == 5 && fi == len(g.files)-1 && fi > 0 && named == 1 {
 				_ = os.MkdirAll(filepath.Dir(filepath.Join(dir, f.Name)), 0o755)
 				if p, err := work.FeedFifo(filepath.Join(dir, f.Name), []byte(f.Content)); err == nil {
